@@ -253,8 +253,19 @@ class Skip(Exception):
 
 
 class Interp:
-    def __init__(self, flavour, importer=None):
+    """exclude: names of known-finding regions the interpreter steers around (exclusion by construction, counted
+    in self.excluded):
+      "rename-collide"    a rename to a name already used in the scope is given a fresh name instead
+      "dangling-sp"       removals that are known to leave a peering ServicePort behind (a connected sub-interface
+                          below the removed element, or a ServicePort peered with another service) are skipped
+      "artefact-name"     interfaces whose library-generated peering names (<owner node>-<interface name>) would
+                          collide with an existing peering artefact are not offered for connection
+    """
+
+    def __init__(self, flavour, importer=None, exclude=()):
         from fim.user.topology import ExperimentTopology, SubstrateTopology
+        self.exclude = frozenset(exclude)
+        self.excluded = {}
         self.flavour = flavour
         store.reset_stores()
         install_uuid()
@@ -343,9 +354,19 @@ class Interp:
     def compute_nodes(s):
         return [n for n in s.ids(CLS_NODE) if s.typ(n) not in ("Facility", "Switch")]
 
-    @staticmethod
-    def free_cps(s):
-        return [cp for cp in s.node_side_cps() if not s.links_of_cp(cp)]
+    def free_cps(self, s):
+        out = [cp for cp in s.node_side_cps() if not s.links_of_cp(cp)]
+        if "artefact-name" in self.exclude:
+            taken = {s.name(l) for l in s.ids(CLS_LINK)}
+            keep = []
+            for cp in out:
+                o = s.owner_node_of_cp(cp)
+                if o is not None and f"{s.name(o)}-{s.name(cp)}-link" in taken:
+                    self._excl("artefact-name")
+                    continue
+                keep.append(cp)
+            out = keep
+        return out
 
     @staticmethod
     def connected_cps(s):
@@ -365,6 +386,28 @@ class Interp:
                             if b != a and not s.owner_of_service(b):
                                 out.append((a, b))
         return sorted(set(out))
+
+    def _excl(self, name):
+        self.excluded[name] = self.excluded.get(name, 0) + 1
+
+    def guard_dangling(self, s, targets, direct=False):
+        """known finding 'dangling-sp': skip a removal that would leave a peering ServicePort behind.
+        direct=True: the removal path does not even disconnect direct interfaces (node-level service removal, prune)"""
+        if "dangling-sp" not in self.exclude:
+            return
+        owned = set()
+        for t in targets:
+            owned |= s.owned(t)
+        for x in owned:
+            if s.cls(x) != CLS_CP:
+                continue
+            if (s.is_sub(x) or (direct and s.typ(x) != "ServicePort")) and \
+                    any(s.typ(p) == "ServicePort" for p in s.peers_of_cp(x)):
+                self._excl("dangling-sp")
+                raise Skip()
+            if s.typ(x) == "ServicePort" and any(s.typ(p) == "ServicePort" for p in s.peers_of_cp(x)):
+                self._excl("dangling-sp")
+                raise Skip()
 
     # ---- one step
     def apply(self, op):
@@ -546,6 +589,12 @@ class Interp:
         pool = [c for c in s.ids(CLS_CP) if s.typ(c) != "ServicePort"]
         refs = [pool[k % len(pool)] for k in op.get("ifs", [])] if pool else []
         refs = list(dict.fromkeys(refs))
+        # a link never joins an interface with its own parent / sub-interface (not a meaningful topology)
+        keep = []
+        for c in refs:
+            if not any(c in s.children_cp(o) or c in s.parent_cp(o) for o in keep):
+                keep.append(c)
+        refs = keep
         if len(refs) < 2 and not op.get("fault"):
             raise Skip()
         name = self.name_of(op.get("name"), "l", s, CLS_LINK)
@@ -624,6 +673,7 @@ class Interp:
         pool = [(c, ch) for c in s.node_side_cps() for ch in s.children_cp(c)]
         cp, ch = self.pick(sorted(pool), op["k"])
         info.update(parent=cp, target=ch)
+        self.guard_dangling(s, [ch])
         h = self.handle(cp, s, op.get("h", 1))
         info["handle"] = h
         h.remove_child_interface(name=s.name(ch))
@@ -632,6 +682,7 @@ class Interp:
     def op_remove_node(self, op, s, info):
         n = self.pick([x for x in s.ids(CLS_NODE) if s.typ(x) != "Facility"], op["k"])
         info.update(target=n)
+        self.guard_dangling(s, [n])
         self.topo.remove_node(name=s.name(n))
 
     def op_remove_component(self, op, s, info):
@@ -640,6 +691,7 @@ class Interp:
         if len(owner) != 1:
             raise Skip()
         info.update(target=c, parent=owner[0])
+        self.guard_dangling(s, [c])
         h = self.handle(owner[0], s, op.get("h", 1))
         if s.typ(c) == "Storage" and op.get("as_storage"):
             h.remove_storage(name=s.name(c))
@@ -649,16 +701,19 @@ class Interp:
     def op_remove_facility(self, op, s, info):
         n = self.pick(s.ids(CLS_NODE, "Facility"), op["k"])
         info.update(target=n)
+        self.guard_dangling(s, [n])
         self.topo.remove_facility(name=s.name(n))
 
     def op_remove_switch(self, op, s, info):
         n = self.pick(s.ids(CLS_NODE, "Switch"), op["k"])
         info.update(target=n)
+        self.guard_dangling(s, [n])
         self.topo.remove_switch(name=s.name(n))
 
     def op_remove_service(self, op, s, info):
         svc = self.pick(s.top_services(), op["k"])
         info.update(target=svc)
+        self.guard_dangling(s, [svc])
         self.topo.remove_network_service(name=s.name(svc))
 
     def op_remove_node_service(self, op, s, info):
@@ -666,6 +721,7 @@ class Interp:
         svc = self.pick(pool, op["k"])
         owner = s.owner_of_service(svc)[0]
         info.update(target=svc, parent=owner)
+        self.guard_dangling(s, [svc], direct=True)
         self.handle(owner, s, op.get("h", 1)).remove_network_service(name=s.name(svc))
 
     def op_remove_link(self, op, s, info):
@@ -679,6 +735,7 @@ class Interp:
         pool = [(svc, cp) for svc in s.owned_services() for cp in s.cps_of_service(svc)]
         svc, cp = self.pick(sorted(pool), op["k"])
         info.update(target=cp, parent=svc)
+        self.guard_dangling(s, [cp])
         h = self.handle(svc, s, op.get("h", 1))
         info["handle"] = h
         h.remove_interface(name=s.name(cp))
@@ -693,7 +750,11 @@ class Interp:
     def op_rename(self, op, s, info):
         e = self._element(op, s)
         scope_cls = s.cls(e)
-        new = self.name_of(op.get("name"), "rn", s, scope_cls)
+        spec = op.get("name")
+        if "rename-collide" in self.exclude and spec and spec[0] == "dup":
+            self._excl("rename-collide")
+            spec = ["fresh"]
+        new = self.name_of(spec, "rn", s, scope_cls)
         info.update(target=e, new_name=new)
         h = self.handle(e, s, op.get("h", 1))
         if op.get("via") == "setter":
@@ -725,7 +786,10 @@ class Interp:
     def op_prune(self, op, s, info):
         if self.flavour != "experiment":
             raise Skip()
-        self.topo.prune(reservation_state=op.get("state", "Failed"))
+        state = op.get("state", "Failed")
+        self.guard_dangling(s, [i for i, d in s.nodes.items()
+                                if f'"reservation_state": "{state}"' in str(d.get("ReservationInfo", ""))], direct=True)
+        self.topo.prune(reservation_state=state)
 
 
 # ---------------------------------------------------------------------------------------------- generators
